@@ -230,6 +230,10 @@ func TestC06Sequential(t *testing.T) {
 				continue
 			}
 			c := wire.Cmd{Kind: kind, Key: rapid.SampledFrom(smallKeys).Draw(t, "key")}
+			// the quiet flag and the opaque of a request are the responder's business:
+			// a handler must give the same outcome, at the same moment, with and without
+			c.Quiet = rapid.IntRange(0, 3).Draw(t, "quietFlag") == 0
+			c.Opaque = rapid.Uint32Range(0, 9).Draw(t, "opaque")
 			switch kind {
 			case wire.Set, wire.Add, wire.Replace:
 				c.Value, c.Flags = genValue(t, "val"), genFlags(t, "flags")
@@ -316,6 +320,7 @@ func TestC06Concurrent(t *testing.T) {
 				switch kind {
 				case wire.Set, wire.Add, wire.Replace, wire.Append:
 					// self-identifying value: caller id and step embedded
+					c.Quiet = rapid.IntRange(0, 3).Draw(t, "quietFlag") == 0
 					pads := []int{0, 10, 2000, 8192, 8192}
 					if huge {
 						pads = []int{300000, 1 << 20, 10}
